@@ -1,3 +1,187 @@
 package main
 
-func assembleJSON(args []string) int { return 2 }
+// effects json: assemble the JSON object that run.sh prints, from the outputs of coqc.
+
+import (
+	"encoding/json"
+	"flag"
+	"fmt"
+	"os"
+	"regexp"
+	"strconv"
+	"strings"
+)
+
+type Detail struct {
+	Function string `json:"function"`
+	Closure  string `json:"closure"`
+}
+
+type Obligation struct {
+	Name       string   `json:"name"`
+	OK         bool     `json:"ok"`
+	Offenders  []string `json:"offenders"`
+	DomainSize int      `json:"domain_size"`
+	Details    []Detail `json:"details,omitempty"`
+}
+
+type Assumption struct {
+	Theorem string `json:"theorem"`
+	File    string `json:"file"`
+	Output  string `json:"output"`
+	Closed  bool   `json:"closed"`
+}
+
+type Info struct {
+	Count int      `json:"count"`
+	Items []string `json:"items,omitempty"`
+}
+
+type Result struct {
+	Repo          string           `json:"repo"`
+	Functions     int              `json:"functions"`
+	Obligations   []*Obligation    `json:"obligations"`
+	AllOK         bool             `json:"all_ok"`
+	CheckCompiled bool             `json:"check_compiled"`
+	CheckError    string           `json:"check_error,omitempty"`
+	Assumptions   []Assumption     `json:"assumptions"`
+	Info          map[string]*Info `json:"info"`
+	WallS         float64          `json:"wall_s"`
+}
+
+func splitNames(s string) []string {
+	if s == "" {
+		return []string{}
+	}
+	return strings.Split(s, ";")
+}
+
+var printAssumptionsRe = regexp.MustCompile(`(?m)^\s*Print Assumptions\s+([A-Za-z0-9_']+)\s*\.`)
+
+// assumptionBlocks pairs the "Print Assumptions X." commands of a .v file, in order, with the blocks
+// coqc printed ("Closed under the global context" or "Axioms:" followed by indented lines).
+func assumptionBlocks(srcPath, outPath string) []Assumption {
+	src, err := os.ReadFile(srcPath)
+	if err != nil {
+		return nil
+	}
+	out, _ := os.ReadFile(outPath)
+	var names []string
+	for _, m := range printAssumptionsRe.FindAllStringSubmatch(string(src), -1) {
+		names = append(names, m[1])
+	}
+	var blocks []string
+	for _, line := range strings.Split(string(out), "\n") {
+		switch {
+		case strings.HasPrefix(line, "Closed under the global context"), strings.HasPrefix(line, "Axioms:"):
+			blocks = append(blocks, line)
+		case strings.HasPrefix(line, "File ") || strings.HasPrefix(line, "Error"):
+			// a compilation error ends the assumption output
+			goto done
+		case len(blocks) > 0 && strings.TrimSpace(line) != "" && strings.HasPrefix(blocks[len(blocks)-1], "Axioms:"):
+			blocks[len(blocks)-1] += "\n" + line
+		}
+	}
+done:
+	var res []Assumption
+	base := srcPath[strings.LastIndex(srcPath, "/")+1:]
+	for i, b := range blocks {
+		if i >= len(names) {
+			break
+		}
+		res = append(res, Assumption{Theorem: names[i], File: base, Output: b, Closed: b == "Closed under the global context"})
+	}
+	return res
+}
+
+func assembleJSON(args []string) int {
+	fs := flag.NewFlagSet("json", flag.ExitOnError)
+	repo := fs.String("repo", "", "analysed repository")
+	wall := fs.Float64("wall", 0, "wall-clock seconds")
+	report := fs.String("report", "", "output of coqc EffectsReport.v")
+	check := fs.String("check", "", "output of coqc EffectsCheck.v")
+	checkSrc := fs.String("check-src", "", "EffectsCheck.v")
+	checkStatus := fs.Int("check-status", 0, "exit status of coqc EffectsCheck.v")
+	model := fs.String("model", "", "saved output of coqc EffectModel.v")
+	modelSrc := fs.String("model-src", "", "EffectModel.v")
+	fs.Parse(args)
+
+	data, err := os.ReadFile(*report)
+	if err != nil {
+		fmt.Fprintf(os.Stderr, "effects json: %v\n", err)
+		return 2
+	}
+	text := string(data)
+	b, e := strings.Index(text, "BEGIN-REPORT"), strings.Index(text, "END-REPORT")
+	if b < 0 || e < b {
+		fmt.Fprintln(os.Stderr, "effects json: no report in the output of EffectsReport.v")
+		return 2
+	}
+	res := &Result{Repo: *repo, WallS: *wall, Info: map[string]*Info{}, AllOK: true, Assumptions: []Assumption{}}
+	byName := map[string]*Obligation{}
+	for _, line := range strings.Split(text[b:e], "\n") {
+		f := strings.Split(strings.TrimRight(line, "\r"), "|")
+		switch f[0] {
+		case "OBL":
+			if len(f) < 4 {
+				continue
+			}
+			n, _ := strconv.Atoi(f[2])
+			o := &Obligation{Name: f[1], DomainSize: n, Offenders: splitNames(f[3])}
+			o.OK = len(o.Offenders) == 0
+			if !o.OK {
+				res.AllOK = false
+			}
+			res.Obligations = append(res.Obligations, o)
+			byName[o.Name] = o
+		case "DET":
+			if len(f) < 4 {
+				continue
+			}
+			if o := byName[f[1]]; o != nil {
+				o.Details = append(o.Details, Detail{Function: f[2], Closure: strings.Join(f[3:], "|")})
+			}
+		case "INFO":
+			if len(f) < 4 {
+				continue
+			}
+			n, _ := strconv.Atoi(f[2])
+			if f[1] == "functions" {
+				res.Functions = n
+				continue
+			}
+			res.Info[f[1]] = &Info{Count: n, Items: splitNames(f[3])}
+		}
+	}
+	if len(res.Obligations) == 0 {
+		fmt.Fprintln(os.Stderr, "effects json: the report lists no obligation")
+		return 2
+	}
+	res.CheckCompiled = *checkStatus == 0
+	if *modelSrc != "" {
+		res.Assumptions = append(res.Assumptions, assumptionBlocks(*modelSrc, *model)...)
+	}
+	res.Assumptions = append(res.Assumptions, assumptionBlocks(*checkSrc, *check)...)
+	if !res.CheckCompiled {
+		out, _ := os.ReadFile(*check)
+		lines := strings.Split(strings.TrimSpace(string(out)), "\n")
+		for i, l := range lines {
+			if strings.HasPrefix(l, "File ") {
+				res.CheckError = strings.Join(lines[i:], "\n")
+				break
+			}
+		}
+	}
+	enc := json.NewEncoder(os.Stdout)
+	enc.SetEscapeHTML(false)
+	if err := enc.Encode(res); err != nil {
+		fmt.Fprintf(os.Stderr, "effects json: %v\n", err)
+		return 2
+	}
+	// EffectsCheck.v and EffectsReport.v use the same predicates: they must agree
+	if res.AllOK != res.CheckCompiled {
+		fmt.Fprintf(os.Stderr, "effects json: internal error: report says all_ok=%v but EffectsCheck.v compiled=%v\n", res.AllOK, res.CheckCompiled)
+		return 3
+	}
+	return 0
+}
